@@ -302,12 +302,7 @@ def execute_rewrite(plan, stats, keys, viol):
         return A.event_digest()
     if info["fired"]:
         stats["fault.rewrite." + sw["mode"]] += 1
-        # (a stop test firing in the very iteration of the rewrite leaves an unfiltered result: known
-        # finding K09b of C13, not judged here)
-        if any(t[0] >= info["event"] for t in A.up_log):
-            judge(A, A.result, "result")
-        else:
-            stats["nj.stopped_right_after_rewrite"] += 1
+        judge(A, A.result, "result")
     return A.event_digest()
 
 
